@@ -94,7 +94,7 @@ BODY_ATTR_VALUES = ['', 'x', '1.0', '2.0', '2.1', '3.0', '1', '9.9', 'ExportIndi
                     # attributes of the response
                     'a"b', "a'b", 'a<b&c>d', ']]>', '"\'<&>']
 BODY_TEXT_VALUES = ['', 'x', '\x00', 'é', '<INSTANCE CLASSNAME="X"/>', '<', '€\U0001F600']
-BODY_BYTES = [b'\x00', b'<', b'\xff']
+BODY_BYTES = [b'\x00', b'<', b'\xff', b'{']
 def _other_documents():
     """complete, valid CIM-XML documents that are not export requests: every other top-level shape
     the tuple parser accepts (declarations, operation requests and responses, export responses,
@@ -130,6 +130,9 @@ OTHER_DOCUMENTS = _other_documents()
 WHOLE_BODIES = [b'', b' ', b'not xml', b'<CIM/>', b'\xef\xbb\xbf' + BODY, BODY + b'trailing', BODY + BODY,
                 BODY.decode().encode('utf-16'), b'<?xml version="1.0"?>\n' + BODY,
                 b'<?xml version="1.0" encoding="latin-1"?>' + BODY,
+                b'<?xml version="1.0" encoding="utf-7"?>' + BODY, b'<?xml version="1.0" encoding="big5"?>' + BODY,
+                b'<?xml version="1.0" encoding="rot13"?>' + BODY, b'<?xml version="1.0" encoding="idna"?>' + BODY,
+                b'<?xml version="1.0" encoding="bogus-enc"?>' + BODY, b'<?xml version="1.0" encoding="utf-32"?>' + BODY,
                 b'<!DOCTYPE x [<!ENTITY a "aaaa">]><CIM>&a;</CIM>'] + OTHER_DOCUMENTS
 
 
